@@ -41,7 +41,7 @@ PROPS = {
         "oracle_engine": {"dispatch": "dispatch", "hsadv": "hs"},
         "trusted": ["handler bodies are opaque (they only decide keep-alive)", "session flags = handshake outcome; their truth is C03/C06"],
         "technique": "Lean 4 theorems (induction over the follow-on command list with the per-iteration re-check as invariant) composed with the handshake model + correspondence on a real server.Server with scripted command sequences, four kinds of client, reconnect-and-resume",
-        "level_text": "dispatch_sound (every invoked authenticated handler: registered, not raw, session meets the command's CURRENT level, identity currently authorized — all follow-on sequences, all keep-alive behaviours), levelOK_meaning, raw_path_only_raw, auth_path_never_raw, refuse_closes, raw_refuse_closes, valid_commands_sound (with the authorization conjunct), valid_commands_dispatchable, no_level_never_authorized: kernel-checked. The server-side close is observed before the harness closes anything; the post-auth ValidCommands advertisement is observed, judged and compared; commands without permission levels / without own policy under a non-OPTIONAL base configuration; follow-on commands on resumed connections. Tied to the code by the dispatch engine: real server with per-command policies/authorization levels and 3 authorizer tables, every command sequence of length <=3 (sampled above 2) over authenticated/raw/unknown commands with random keep-alive patterns, 4 client kinds, reconnect-and-resume with another command; invoked handlers (with the stream's real encryption state) compared with the model composed with honestRun.",
+        "level_text": "levelOK_is_the_code (the model's level test EQUALS the definition tools/gen translates from server.commandLevelSatisfied on every run, for all level strings), dispatch_sound (every invoked authenticated handler: registered, not raw, session meets the command's CURRENT level, identity currently authorized — all follow-on sequences, all keep-alive behaviours), levelOK_meaning, raw_path_only_raw, auth_path_never_raw, refuse_closes, raw_refuse_closes, valid_commands_sound (with the authorization conjunct), valid_commands_dispatchable, no_level_never_authorized: kernel-checked. The server-side close is observed before the harness closes anything; the post-auth ValidCommands advertisement is observed, judged and compared; commands without permission levels / without own policy under a non-OPTIONAL base configuration; follow-on commands on resumed connections. Tied to the code by the dispatch engine: real server with per-command policies/authorization levels and 3 authorizer tables, every command sequence of length <=3 (sampled above 2) over authenticated/raw/unknown commands with random keep-alive patterns, 4 client kinds, reconnect-and-resume with another command; invoked handlers (with the stream's real encryption state) compared with the model composed with honestRun.",
         "level_note": "Handler bodies are opaque; the per-command policy function and authorizer are parameters (they may change between connections). The theorems assume the session flags are true (C03); the hsadv engine (C03) therefore also runs under this check and its violations count here.",
         "assumptions": ["reported session flags equal the real state (C03, C06)"],
     },
@@ -71,7 +71,7 @@ PROPS = {
         "oracle_engine": {"matrix": "hs"},
         "trusted": ["ECDH/HKDF symbolic; credentials of a method modelled as a predicate credOK"],
         "technique": "Lean 4 theorems (decision table = negotiateSecurity for all 4^4 levels by kernel evaluation, lifted to arbitrary lists; agreement of two honest machines) + exhaustive correspondence of two real endpoints over the full matrix x list shapes",
-        "level_text": "honest_matches_spec (negotiateSecurity fails / authenticates / encrypts exactly per the property's table, all 4^4 level combinations x existence of a usable method/cipher), negotiate_is_core + negotiated_method_common (lifting to arbitrary lists; unimplemented methods never count), client_view_consistent, jointLoop_success, retry_loop_complete + honest_auth_complete (the retry loop of two honest endpoints ends in success with a working method whenever one exists, any orders, any number of failing methods first), honest_agree (same auth/enc outcome, session id, key, exchanges). Tied to the code by the matrix engine: two real endpoints, all 256 cells x 5-8 list/cipher shapes, a message each way after success, compared with honestRun and with an independently written table.",
+        "level_text": "core_is_the_code (the model's level logic EQUALS the definition tools/gen translates statement by statement from security.negotiateSecurity on every run, for all level strings), honest_matches_spec (negotiateSecurity fails / authenticates / encrypts exactly per the property's table, all 4^4 level combinations x existence of a usable method/cipher), negotiate_is_core + negotiated_method_common (lifting to arbitrary lists; unimplemented methods never count), client_view_consistent, jointLoop_success, retry_loop_complete + honest_auth_complete (the retry loop of two honest endpoints ends in success with a working method whenever one exists, any orders, any number of failing methods first), honest_agree (same auth/enc outcome, session id, key, exchanges). Tied to the code by the matrix engine: two real endpoints, all 256 cells x 5-8 list/cipher shapes, a message each way after success, compared with honestRun and with an independently written table.",
         "level_note": "Completeness of the bitmask retry loop is proved (retry_loop_complete, honest_auth_complete: success whenever some offered method works) for method sets with distinct single-bit mask values; SCITOKENS and IDTOKENS share one bit, so lists containing both are covered by the matrix engine only; methods exercised on the wire: CLAIMTOBE, PASSWORD, NONE.",
         "assumptions": ["credentials: CLAIMTOBE always succeeds between the two test endpoints"],
     },
@@ -121,7 +121,7 @@ NOT_APPLICABLE = {p: "check exists (model, theorems, engine committed) but is be
                   ["C%02d" % i for i in range(1, 21)]}
 # properties whose check exists but is being reconciled with the current tree (not claimed in MANIFEST meanwhile)
 HOLD = []
-HOOK_COMMITS = ["c6f7867", "24f55f1", "656796a"]
+HOOK_COMMITS = ["c6f7867", "24f55f1", "656796a", "f1896ba", "c241426"]
 
 PROPS["C16"] = {'assumptions': ['HKDF-SHA256 is injective on the secrets in use (collision resistance)',
                  'crypto/rand yields the 64 lowercase hex characters randomHexKey documents'],
